@@ -22,7 +22,10 @@ def rows(paths):
                         if st.startswith("obsolete"):
                             verdict, detail = "obsolete", st
                 out.append((f[0], f[1], verdict, detail))
-    return sorted(set(out))
+    last = {}
+    for r in out:          # a later log overrides an earlier one (re-runs after a correction)
+        last[r[0]] = r
+    return sorted(last.values())
 def write(path, title, rs, good):
     rs = [r for r in rs]
     n = sum(1 for r in rs if r[2].startswith(good))
